@@ -58,6 +58,53 @@ def check(repo, col, tier):
     c11._named(repo, col, "R-C09-select")
     col.rule("R-C09-rows", "synapse parameters are written only to the selected synapses of the type that has the parameter", 6)
     c10._rows(repo, col, "R-C09-rows")
+    col.rule("R-C09-nameparse", "the mechanism that owns a parameter is never inferred by parsing the parameter's name", 6)
+    name_parsing(repo, col, "R-C09-nameparse")
+
+
+PARSERS = ("split", "rsplit", "partition", "rpartition", "startswith", "endswith", "removeprefix", "removesuffix", "find", "index")
+
+
+def _parses_key(node):
+    """a string-parsing call on a key-like name (`key.split("_")`, `name.startswith(...)`)"""
+    for x in ast.walk(node):
+        if isinstance(x, ast.Call) and isinstance(x.func, ast.Attribute) and x.func.attr in PARSERS and \
+                isinstance(x.func.value, ast.Name) and x.args and isinstance(x.args[0], ast.Constant) and isinstance(x.args[0].value, str):
+            return x
+    return None
+
+
+def name_parsing(repo, col, R):
+    """Parameter and state names are `<mechanism name>_<parameter>`; both parts are free text -- `IonotropicSynapse(name="exc_syn")`,
+    `e_syn`.  No split / prefix test recovers the mechanism from such a name for every name.  The functions that assemble and step
+    the simulation (get_all_parameters, get_all_states, to_jax, Module.step and what it calls) take the owner from the tables
+    (`edges["type"]`, the synapse's own `synapse_params`), never from the text of the key."""
+    from . import common
+    # the detector itself, on a known positive (kept so that a rule with zero expected findings cannot pass vacuously)
+    probe = ast.parse('is_type = edges["type"].to_numpy() == key.split("_")[0]')
+    if _parses_key(probe) is None:
+        raise AnalysisError("name-parsing detector does not recognise its reference example")
+    cg = common._callgraph(repo)
+    by_key = {(f.file, f.qual): f for f in repo.all_functions()}
+    roots = [repo.method("Module", n_) for n_ in ("get_all_parameters", "get_all_states", "to_jax", "step")]
+    seen, todo = set(), [(f.file, f.qual) for f in roots]
+    while todo:
+        k = todo.pop()
+        if k in seen:
+            continue
+        seen.add(k)
+        todo.extend(cg.get(k, ()))
+    n = 0
+    for k in sorted(seen):
+        f = by_key.get(k)
+        if f is None or not f.file.startswith("jaxley/modules/") or f.qual.startswith("View."):
+            continue
+        hit = _parses_key(f.node)
+        n += 1
+        col.check(hit is None, R, f, f"{f.qual} does not recover a mechanism from the text of a key", "owner taken from the tables",
+                  f"`{unparse(hit)[:60] if hit is not None else ''}` in {f.qual}: the mechanism (synapse type / channel) is inferred from the parameter's "
+                  f"name; for a mechanism whose name contains the separator (`IonotropicSynapse(name='exc_syn')`) nothing matches and every "
+                  f"value set through data_set / trainables lands on the wrong synapse (or on none)", node=hit or f.node)
 
 
 def _col_of(t: T):
